@@ -14,8 +14,7 @@ func main() {
 	c.Cmd("CREATE b2")
 	c.Cmd("SELECT b2")
 	c.Append("b2", "", common.Message("m1", "x"))
-	c.Append("b2", "", common.Message("m2", "x"))
-	for _, cmd := range []string{"COPY 2 b2", "COPY 1:* b2", "CLOSE", "NOOP"} {
+	for _, cmd := range []string{"FETCH 1 (FLAGS BODY[HEADER.FIELDS (TO)])", "FETCH 1 (FLAGS)"} {
 		r, err := c.Cmd(cmd)
 		fmt.Println(cmd, "->", r.Status, r.Text, err, len(r.Untagged))
 		for _, l := range r.Untagged { fmt.Println("   ", l.Text) }
